@@ -8,6 +8,7 @@ import (
 	"io"
 	"os"
 	"path/filepath"
+	"strings"
 
 	format "github.com/ipfs/go-ipld-format"
 	carv2 "github.com/ipld/go-car/v2"
@@ -28,6 +29,7 @@ type c07Desc struct {
 	Whole     bool   `json:"whole,omitempty"`
 	StoreID   bool   `json:"id,omitempty"`
 	Supplied  string `json:"supplied,omitempty"` // "" | lib-sorted | lib-mh | ref-sorted | ref-mh
+	Huge      bool   `json:"huge,omitempty"`     // one section of more than 8 MiB
 	Big       int    `json:"big,omitempty"`      // > 0: that many tiny sections (an index generated at open holds tens of thousands of records)
 }
 
@@ -45,6 +47,19 @@ func runC07(t *mon.T, raw json.RawMessage) {
 			content.Blocks = append(content.Blocks, refcar.Block{Cid: refcar.MakeCidV1(0x55, []uint64{0x12, 0x13}[i%2], dg), Data: []byte{byte(i), byte(i >> 8)}})
 		}
 		t.Cover("input:tens-of-thousands-of-sections")
+	}
+	if d.Big == 0 && r.Intn(3) == 0 {
+		// dag-pb blocks under a CIDv0 and under a CIDv1 (their other-version twins are queried below)
+		content.Blocks = append(content.Blocks, refcar.Block{Cid: refcar.MakeCidV0(gen.Bytes(r, 32)), Data: []byte("under a CIDv0")},
+			refcar.Block{Cid: refcar.MakeCidV1(0x70, 0x12, gen.Bytes(r, 32)), Data: []byte("dag-pb under a CIDv1")})
+	}
+	if d.Huge {
+		// one section over the default MaxAllowedSectionSize of the BUFFERING readers: lookups by size,
+		// listings and index generation do not buffer it
+		huge := refcar.Block{Cid: refcar.MakeCidV1(0x55, 0x12, gen.Bytes(r, 32)), Data: make([]byte, 8<<20+r.Intn(100))}
+		i := r.Intn(len(content.Blocks) + 1)
+		content.Blocks = append(append(append([]refcar.Block{}, content.Blocks[:i]...), huge), content.Blocks[i:]...)
+		t.Cover("input:a-section-over-8MiB")
 	}
 	// same key, different bytes (only possible with synthetic CIDs; the stores never hash)
 	if len(content.Blocks) > 0 && r.Intn(3) == 0 {
@@ -120,6 +135,14 @@ func runC07(t *mon.T, raw json.RawMessage) {
 		if s.Cid.Version == 1 {
 			queries = append(queries, refcar.MakeCidV1(s.Cid.Codec^0x1, s.Cid.MhCode, s.Cid.Digest)) // same multihash, other codec
 		}
+		// the other-version twin: same codec (dag-pb), same multihash, another CID
+		if s.Cid.Version == 0 {
+			queries = append(queries, refcar.MakeCidV1(0x70, 0x12, s.Cid.Digest))
+			t.Cover("query:cidv1-twin-of-a-stored-cidv0")
+		} else if s.Cid.Codec == 0x70 && s.Cid.MhCode == 0x12 && len(s.Cid.Digest) == 32 {
+			queries = append(queries, refcar.MakeCidV0(s.Cid.Digest))
+			t.Cover("query:cidv0-twin-of-a-stored-cidv1")
+		}
 		if len(s.Cid.Digest) > 0 {
 			nd := append([]byte{}, s.Cid.Digest...)
 			nd[len(nd)/2] ^= 4
@@ -167,6 +190,21 @@ func runC07(t *mon.T, raw json.RawMessage) {
 		return format.IsNotFound(err) || errors.Is(err, index.ErrNotFound) || errors.As(err, &storage.ErrNotFound{})
 	}
 
+	// Get buffers the section it returns (or compares): for the one section over MaxAllowedSectionSize the
+	// too-large error is the documented answer of a buffering read (C09), for a key with that multihash
+	overLimit := func(q []byte, err error) bool {
+		if !d.Huge || err == nil || !strings.Contains(err.Error(), "beyond allowable maximum") {
+			return false
+		}
+		qc, _, _ := refcar.SplitCid(q)
+		for _, s := range ref.Sections {
+			if len(s.Data) > 8<<20 && bytes.Equal(s.Cid.Digest, qc.Digest) {
+				t.Cover("huge-section:get-refused-as-too-large")
+				return true
+			}
+		}
+		return false
+	}
 	// ---- blockstore.ReadOnly
 	checkRO := func(name string, ro *blockstore.ReadOnly) map[string]string {
 		out := map[string]string{}
@@ -202,6 +240,7 @@ func runC07(t *mon.T, raw json.RawMessage) {
 			}
 			b, gerr := ro.Get(bg, k)
 			switch {
+			case overLimit(q, gerr):
 			case present && (gerr != nil || !lab.ContainsData(adm, b.RawData())):
 				t.Violatef(name+"/Get/differs-from-scan", "%s: Get(%x) = %v; the scan holds %d section(s) with that key", name, q, gerr, len(adm))
 			case !present && !isNotFound(gerr):
@@ -373,6 +412,7 @@ func runC07(t *mon.T, raw json.RawMessage) {
 				}
 				b, gerr := sr.Get(bg, string(q))
 				switch {
+				case overLimit(q, gerr):
 				case present && (gerr != nil || !lab.ContainsData(adm, b)):
 					t.Violatef(name+"/Get/differs-from-scan", "%s: Get(%x) = %v; the scan holds %d section(s) with that key", name, q, gerr, len(adm))
 				case !present && !isNotFound(gerr):
@@ -414,6 +454,9 @@ func genC07(g *mon.G) {
 	for i := 0; i < g.Pick(1500, 30000); i++ {
 		g.Emit(c07Desc{Seed: r.Int63(), Container: conts[i%len(conts)], Whole: r.Intn(3) == 0, StoreID: r.Intn(2) == 0, Supplied: sup[r.Intn(len(sup))]})
 	}
+	for i := 0; i < g.Pick(2, 8); i++ {
+		g.Emit(c07Desc{Seed: r.Int63(), Container: []string{"v1", "v2-mh", "v2-indexless", "v2-sorted-pad"}[i%4], Whole: i%2 == 1, Huge: true})
+	}
 	for i := 0; i < g.Pick(3, 15); i++ {
 		g.Emit(c07Desc{Seed: r.Int63(), Container: []string{"v1", "v2-indexless", "v2-mh"}[i%3], Whole: i%2 == 1, StoreID: i%4 == 2, Supplied: []string{"", "", "", "lib-sorted", "lib-mh"}[i%5],
 			Big: []int{16500, 33000, 50000}[i%3] + r.Intn(3000)})
@@ -428,7 +471,7 @@ func init() {
 		Assumptions: []string{"reference scan (refcar) is the model", "GetSize of an absent identity CID with StoreIdentityCIDs on: a size or a not-found answer are both accepted (the block is implied by its CID)"},
 		Gen:         genC07,
 		Run:         runC07,
-		MinCover: map[string]int{"unreadable-section-probes": 100, "backing:seekable-with-its-cursor-elsewhere": 100, "backing:Reader.DataReader": 100, "input:tens-of-thousands-of-sections": 3, "archive-fully-indexed-read-without-the-option": 50, "input:identity-cid-longer-than-max-index-cid-size": 50, "container:v1": 20, "container:v1-nullpad": 20, "container:v2-mh": 20, "container:v2-sorted-pad": 20, "container:v2-indexless": 20,
+		MinCover: map[string]int{"unreadable-section-probes": 100, "input:a-section-over-8MiB": 2, "query:cidv1-twin-of-a-stored-cidv0": 50, "query:cidv0-twin-of-a-stored-cidv1": 50, "backing:seekable-with-its-cursor-elsewhere": 100, "backing:Reader.DataReader": 100, "input:tens-of-thousands-of-sections": 3, "archive-fully-indexed-read-without-the-option": 50, "input:identity-cid-longer-than-max-index-cid-size": 50, "container:v1": 20, "container:v1-nullpad": 20, "container:v2-mh": 20, "container:v2-sorted-pad": 20, "container:v2-indexless": 20,
 			"supplied:lib-sorted": 5, "supplied:ref-mh": 5, "api:blockstore.OpenReadOnly": 50, "api:storage.OpenReadable": 50},
 	})
 }
